@@ -10,7 +10,7 @@ C06 = load_spec("C06")
 
 
 def units(ctx):
-    return [C06.euler_step_unit("C01"), C03.rk_step_unit("C01")[0], C03.adams_solver_unit("C01")[0]]
+    return [C06.euler_step_unit("C01"), C03.rk_step_unit("C01")[0], C03.adams_solver_unit("C01")[0], C03.bdf_solver_unit("C01")[0]]
 
 
 DECIDED = [
@@ -22,11 +22,10 @@ DECIDED = [
     "AdamsSolver::step (Adams3/Adams5): every point produced by a call has old time < t <= end and is within dt_max of the solver's previous time; the final step lands exactly on the end; "
     "start-up points that still wait to be yielded are never abandoned: Done is not answered, and the final clipped step is not taken, while yield_memory == O with a full history "
     "(hist invariant: their validating multistep step fits before the end)",
+    "BDFSolver::step (BDF2/BDF6): the same clauses as for Adams (ordered, in the interval, gap-bounded per call; final step on the end; no abandoned start-up points; rewind by order * dt after a rejected start-up)",
 ]
 NOT_DECIDED = [
-    "BDF2 / BDF6 (BDFSolver::step closes over `&mut Self` closures and a generic quasi-Newton solver; outside the verifier's reach, see C03) -- on the pinned tree BDF returns Ok with an EMPTY path "
-    "for short intervals (witness/src/bin/c01.rs); recorded as a known finding",
-    "Adams: the whole-history statement 'the last yielded point is at the end time' (the yielded start-up points come from memory, so the clock lemma does not apply as it stands); "
+    "Adams / BDF: the whole-history statement 'the last yielded point is at the end time' (the yielded start-up points come from memory, so the clock lemma does not apply as it stands); "
     "decided per call only: final step lands on the end, no pending points at Done",
     "termination (a solver may answer Redo forever) and finiteness of the states (exact reals have no NaN/inf)",
     "IVPIterator::next turning step() results into items is decided in C06 (iterator unit)",
